@@ -427,6 +427,14 @@ def _arith_order(c, op, a, b):
             z3.Implies(z3.And(ok, z3.Or(z3.And(pos(a), neg(b)), z3.And(neg(a), pos(b))), z3.Or(inf(a), inf(b))), r == NINF),
             z3.Implies(z3.And(ok, b.r == 1), r == a.r),
             z3.Implies(z3.And(ok, a.r == 1), r == b.r),
+            # scaling by a factor >= 1 (resp. in [0, 1]) does not shrink (resp. grow) the magnitude: the exact product is on the
+            # right side of the other operand, which is representable, and rounding is monotone
+            z3.Implies(z3.And(ok, a.r >= 1, b.r >= 0), r >= b.r),
+            z3.Implies(z3.And(ok, a.r >= 1, b.r <= 0), r <= b.r),
+            z3.Implies(z3.And(ok, b.r >= 1, a.r >= 0), r >= a.r),
+            z3.Implies(z3.And(ok, b.r >= 1, a.r <= 0), r <= a.r),
+            z3.Implies(z3.And(ok, a.r >= 0, a.r <= 1, b.r >= 0), r <= b.r),
+            z3.Implies(z3.And(ok, b.r >= 0, b.r <= 1, a.r >= 0), r <= a.r),
             z3.Implies(z3.And(ok, b.r == -1, z3.Not(inf(a))), r == -a.r),
             z3.Implies(z3.And(ok, a.r == -1, z3.Not(inf(b))), r == -b.r),
         ]
